@@ -3,6 +3,8 @@ import TnVerif.Lemmas.RankSelect
 import TnVerif.Lemmas.RoundTTBridge
 import TnVerif.Lemmas.OrthSweep
 import TnVerif.Lemmas.Isometry
+import TnVerif.Lemmas.RoundTucker
+import TnVerif.Lemmas.RoundTuckerEx
 import Mathlib.Tactic.IntervalCases
 import TnVerif.Generated
 import Mathlib.Algebra.Order.Field.Basic
@@ -154,9 +156,184 @@ theorem roundTT_with_factors (thr eps : K) (ms : List (Mode K)) (as : List (SVDA
       ≤ eps ^ 2 * boxSum (rowsOf Ls) (fun is => dense (linAll Ls ms) is ^ 2) :=
   TN.roundTT_with_factors thr eps ms as cur rest Ls hrev hlo hrl hrr hok hun hlen hcol
 
+/-! ## the error bound of `round_tucker` (`algorithm='svd'`, `dim='all'`, non-batch) and of the combined `round`
+
+Model: `Model/RoundTucker.lean` — one mode = factor + TT core (`TkMode`), the loop body `tuckerStep` = `tkGauge` (QR of the core's mode
+unfolding, `R` into the factor) → `tkTrunc` (truncated SVD of the factor, remainder `U_rᵀ·Us[mu]` into the core) → `tkRegauge`
+(`right_orthogonalize(mu)`: factor QR + transposed QR, `L` into core `mu-1`), the loop `tuckerSweepRev` on the reversed chain and
+`roundTuckerSem` in forward order.  The four kernel answers of every iteration (`TkAns`) are inputs with contracts (`tkOK`:
+`TkQRok`, `TkSVDok`, `TkFQok`, `TkRQok`, each stated for the matrix the code hands to the kernel at that point of the sweep).
+State entering the loop (after `self.orthogonalize(-1)`): reversed chain `cur :: rest`; every mode of `rest` (core WITH its factor
+applied) is left-orthonormal (`chainLO`), which is what `left_orthogonalize(i)` = `factor_orthogonalize(i)` + QR establishes. -/
+
+omit [LinearOrder K] [IsStrictOrderedRing K] in
+/-- **one iteration `mu > 0`, exact error identity (Pythagoras)**: let `X` be the (orthonormal) interface of the modes left of `mu` and `Fl`
+    ANY later approximation of the part left of the re-gauged mode `mu`.  The squared distance between the current tensor (mode `cur`,
+    open right bond) and `Fl ⋅ (new mode mu)` is the discarded tail `Σ_{m ≥ r} S_m²` of the singular values of the matrix the code
+    decomposes (`Us[mu] @ R.T`) plus the squared distance of `X·L` to `Fl` measured on the bond to mode `mu-1`: the truncation error of
+    this mode is orthogonal to everything later iterations do. -/
+theorem roundTucker_step_error (s : List Nat) (X : List Nat → Nat → K) (p cur : TkMode K) (A : TkAns K) (r : Nat)
+    (hX : ∀ a, a < cur.core.rl → ∀ a', a' < cur.core.rl → boxSum s (fun x => X x a * X x a') = if a = a' then 1 else 0)
+    (hqr : TkQRok cur A.qr) (hsvd : TkSVDok (tkGauge cur A.qr) A.svd) (hr : r ≤ A.svd.n)
+    (hfq : TkFQok (tkTrunc (tkGauge cur A.qr) A.svd r) A.fq) (hrq : TkRQok (tkTrunc (tkGauge cur A.qr) A.svd r) A.fq A.rq)
+    (Fl : List Nat → Nat → K) :
+    (∑ i ∈ Finset.range cur.rows, boxSum s (fun x => ∑ b ∈ Finset.range cur.core.rr,
+        ((∑ a ∈ Finset.range cur.core.rl, X x a * cur.toMode.G i a b)
+          - ∑ c ∈ Finset.range A.rq.k, Fl x c * (tkRegauge p (tkTrunc (tkGauge cur A.qr) A.svd r) A.fq A.rq).2.toMode.G i c b) ^ 2))
+      = (∑ m ∈ Finset.Ico r A.svd.n, A.svd.S m ^ 2)
+        + boxSum s (fun x => ∑ c ∈ Finset.range A.rq.k, ((∑ a ∈ Finset.range cur.core.rl, X x a * A.rq.Rm c a) - Fl x c) ^ 2) :=
+  TN.tk_step_pythag s X p cur A r hX hqr hsvd hr hfq hrq Fl
+
+omit [LinearOrder K] [IsStrictOrderedRing K] in
+/-- **the iteration `mu = 0`** (no re-gauging): the squared distance between the mode and its truncation is exactly the discarded tail -/
+theorem roundTucker_last_step_error (s : List Nat) (X : List Nat → Nat → K) (cur : TkMode K) (A : TkAns K) (r : Nat)
+    (hX : ∀ a, a < cur.core.rl → ∀ a', a' < cur.core.rl → boxSum s (fun x => X x a * X x a') = if a = a' then 1 else 0)
+    (hqr : TkQRok cur A.qr) (hsvd : TkSVDok (tkGauge cur A.qr) A.svd) (hr : r ≤ A.svd.n) :
+    (∑ i ∈ Finset.range cur.rows, boxSum s (fun x => ∑ b ∈ Finset.range cur.core.rr,
+        ((∑ a ∈ Finset.range cur.core.rl, X x a * cur.toMode.G i a b)
+          - ∑ a ∈ Finset.range cur.core.rl, X x a * (tkTrunc (tkGauge cur A.qr) A.svd r).toMode.G i a b) ^ 2))
+      = ∑ m ∈ Finset.Ico r A.svd.n, A.svd.S m ^ 2 :=
+  TN.tk_last_pythag s X cur A r hX hqr hsvd hr
+
+/-- **exact error of `round_tucker`**: the squared Frobenius error of the whole sweep is the SUM of the discarded tails of the `N` factor
+    truncations (`=`, not `≤`: the per-mode errors are mutually orthogonal) -/
+theorem roundTucker_error_eq (thr eps : K) (ms : List (TkMode K)) (as : List (TkAns K × Nat)) (cur : TkMode K) (rest : List (TkMode K))
+    (hrev : ms.reverse = cur :: rest) (hlo : chainLO (rest.map TkMode.toMode)) (hrl : cur.core.rl = topRank (rest.map TkMode.toMode))
+    (hrr : cur.core.rr = 1) (hok : tkOK thr eps ms.length (cur :: rest) as) :
+    boxSum (ms.map (·.rows)) (fun is => (dense (ms.map TkMode.toMode) is - dense ((roundTuckerSem thr eps ms as).map TkMode.toMode) is) ^ 2)
+      = tkSweepErr thr eps ms.length (cur :: rest) as :=
+  TN.roundTucker_error_eq thr eps ms as cur rest hrev hlo hrl hrr hok
+
+/-- the budget `truncated_svd(eps=eps/sqrt(N))` derives from the norm of the FACTOR is `eps²/N` times the squared norm of the CURRENT
+    tensor (the core's mode unfolding and both interfaces being orthonormal at that moment) -/
+theorem roundTucker_budget_is_norm (eps : K) (nd : Nat) (rest : List (TkMode K)) (cur : TkMode K) (A : QRAns K)
+    (hlo : chainLO (rest.map TkMode.toMode)) (hrl : cur.core.rl = topRank (rest.map TkMode.toMode)) (hqr : TkQRok cur A) :
+    tkBudget2 eps nd (tkGauge cur A) = eps ^ 2 / (nd : K) * tkNrm ((cur :: rest).map TkMode.toMode) cur.core.rr :=
+  TN.tk_budget_norm eps nd rest cur A hlo hrl hqr
+
+/-- **the tolerance is honoured by `round_tucker`**: with the per-mode budget `δ_mu² = eps²·‖Us[mu]‖²/N` the code computes, when no
+    iteration is capped by `rmax[mu]` (and none takes the absolute-zero special case): `‖T − round_tucker(T)‖² ≤ eps²·‖T‖²`
+    (each tail is `≤ eps²/N·‖T_current‖²`, the current norm never exceeds `‖T‖`, the tails add up by `roundTucker_error_eq`) -/
+theorem roundTucker_within_eps (thr eps : K) (ms : List (TkMode K)) (as : List (TkAns K × Nat)) (cur : TkMode K) (rest : List (TkMode K))
+    (hrev : ms.reverse = cur :: rest) (hlo : chainLO (rest.map TkMode.toMode)) (hrl : cur.core.rl = topRank (rest.map TkMode.toMode))
+    (hrr : cur.core.rr = 1) (hok : tkOK thr eps ms.length (cur :: rest) as) (hun : tkUncapped thr eps ms.length (cur :: rest) as) :
+    boxSum (ms.map (·.rows)) (fun is => (dense (ms.map TkMode.toMode) is - dense ((roundTuckerSem thr eps ms as).map TkMode.toMode) is) ^ 2)
+      ≤ eps ^ 2 * boxSum (ms.map (·.rows)) (fun is => dense (ms.map TkMode.toMode) is ^ 2) :=
+  TN.roundTucker_within_eps thr eps ms as cur rest hrev hlo hrl hrr hok hun
+
+/-- non-vacuity of `roundTucker_error_eq` / `roundTucker_within_eps` / `roundTucker_rank`: the 2×2 array `diag(3,1)` as two TT cores with
+    identity factors (`Lemmas/RoundTuckerEx`), `eps = 0`, `rmax = 7`, with the exact answers of the four kernels in both iterations, meets
+    every hypothesis -/
+example : let ms : List (TkMode K) := [tkExP, tkExCur]
+    ms.reverse = tkExCur :: [tkExP] ∧ chainLO ([tkExP (K := K)].map TkMode.toMode) ∧
+    (tkExCur (K := K)).core.rl = topRank ([tkExP (K := K)].map TkMode.toMode) ∧ (tkExCur (K := K)).core.rr = 1 ∧
+    tkOK (0 : K) 0 ms.length [tkExCur, tkExP] [(tkExA, 7), (tkExA, 7)] ∧
+    tkUncapped (0 : K) 0 ms.length [tkExCur, tkExP] [(tkExA, 7), (tkExA, 7)] ∧
+    [tkExCur (K := K), tkExP].length ≤ [(tkExA (K := K), 7), (tkExA, 7)].length ∧
+    tkShapes (0 : K) 0 ms.length [tkExCur, tkExP] [(tkExA, 7), (tkExA, 7)] :=
+  ⟨rfl, tkExLO, rfl, rfl, tkExOK, tkExUncapped, by simp, tkExShapes⟩
+
+/-- with a zero budget (`round()` calls `round_tucker(0, rmax=…)` when the TT stage used up `eps`) an uncapped sweep changes nothing -/
+theorem roundTucker_zero_budget (thr : K) (ms : List (TkMode K)) (as : List (TkAns K × Nat)) (cur : TkMode K) (rest : List (TkMode K))
+    (hrev : ms.reverse = cur :: rest) (hlo : chainLO (rest.map TkMode.toMode)) (hrl : cur.core.rl = topRank (rest.map TkMode.toMode))
+    (hrr : cur.core.rr = 1) (hok : tkOK thr 0 ms.length (cur :: rest) as) (hun : tkUncapped thr 0 ms.length (cur :: rest) as) :
+    boxSum (ms.map (·.rows)) (fun is => (dense (ms.map TkMode.toMode) is - dense ((roundTuckerSem thr 0 ms as).map TkMode.toMode) is) ^ 2) = 0 := by
+  have h := TN.roundTucker_within_eps thr 0 ms as cur rest hrev hlo hrl hrr hok hun
+  have h2 := boxSum_sq_nonneg (ms.map (·.rows))
+    (fun is => dense (ms.map TkMode.toMode) is - dense ((roundTuckerSem thr 0 ms as).map TkMode.toMode) is)
+  have : (0 : K) ^ 2 * boxSum (ms.map (·.rows)) (fun is => dense (ms.map TkMode.toMode) is ^ 2) = 0 := by ring
+  rw [this] at h
+  exact le_antisymm h h2
+
+/-- **Tucker ranks never grow and respect `rmax`**: in processing order (`mu = N-1, …, 0`; `tkRankRel` pairs output mode, input mode and
+    `rmax[mu]`), every new Tucker rank is `≤` the old one and `≤ rmax[mu]` (when `rmax[mu] ≥ 1`, which `truncated_svd` asserts), given that the
+    kernels return reduced factorisations (`tkShapes`: `k = min(rows, cols)`) -/
+theorem roundTucker_rank (thr eps : K) (nd : Nat) (as : List (TkAns K × Nat)) (l : List (TkMode K))
+    (hlen : l.length ≤ as.length) (hok : tkOK thr eps nd l as) (hsh : tkShapes thr eps nd l as) :
+    tkRankRel (tuckerSweepRev thr eps nd l as) l as :=
+  TN.tk_sweep_rank thr eps nd as l hlen hok hsh
+
+/-- **`round_tucker` end to end on a TT tensor without Tucker factors**: `orthogonalize(-1)` (QR answers, contract `qrOK`), identity
+    factors (`TkMode.ofMode` = `torch.eye`), then the truncation sweep.  The gauge hypotheses of `roundTucker_within_eps` are DERIVED from the
+    QR contracts; what remains are the kernel contracts and the "uncapped / not absolutely zero" side conditions. -/
+theorem roundTucker_end_to_end (thr eps : K) (ms : List (Mode K)) (qrs : List (QRAns K)) (as : List (TkAns K × Nat))
+    (cur : Mode K) (rest : List (Mode K))
+    (hwf : wf 1 ms) (hout : outRank 1 ms = 1) (hlen : qrs.length + 1 = ms.length) (hqr : qrOK ms qrs)
+    (hrev : (leftSweep ms qrs).reverse = cur :: rest)
+    (hok : tkOK thr eps ms.length ((cur :: rest).map TkMode.ofMode) as)
+    (hun : tkUncapped thr eps ms.length ((cur :: rest).map TkMode.ofMode) as) :
+    boxSum (ms.map (·.n)) (fun is => (dense ms is
+        - dense ((roundTuckerSem thr eps ((leftSweep ms qrs).map TkMode.ofMode) as).map TkMode.toMode) is) ^ 2)
+      ≤ eps ^ 2 * boxSum (ms.map (·.n)) (fun is => dense ms is ^ 2) :=
+  TN.roundTucker_end_to_end thr eps ms qrs as cur rest hwf hout hlen hqr hrev hok hun
+
+/-- non-vacuity of `roundTucker_end_to_end`: the same example starting from the raw cores, with the QR answer of `orthogonalize(-1)` -/
+example : let ms : List (Mode K) := [tkExM0, tkExM1]
+    wf 1 ms ∧ outRank 1 ms = 1 ∧ [tkExQ (K := K)].length + 1 = ms.length ∧ qrOK ms [tkExQ] ∧
+    (leftSweep ms [tkExQ]).reverse = (orthStep tkExM0 tkExM1 tkExQ).2 :: [(orthStep tkExM0 tkExM1 tkExQ).1] ∧
+    tkOK (0 : K) 0 ms.length ([(orthStep tkExM0 tkExM1 tkExQ).2, (orthStep tkExM0 tkExM1 tkExQ).1].map TkMode.ofMode) [(tkExA, 7), (tkExA, 7)] ∧
+    tkUncapped (0 : K) 0 ms.length ([(orthStep tkExM0 tkExM1 tkExQ).2, (orthStep tkExM0 tkExM1 tkExQ).1].map TkMode.ofMode) [(tkExA, 7), (tkExA, 7)] :=
+  ⟨⟨rfl, rfl, trivial⟩, rfl, rfl, tkExQROK, tkExRev, tkExOK, tkExUncapped⟩
+
+/-- **two stages compose within `eps`** (arrays `x` → `y` → `z` on any index box): if the first stage reached relative error `e1 ≤ eps` and
+    the second stays within `(1+eps)/(1+e1) − 1` relative to ITS input, then `‖x − z‖² ≤ eps²‖x‖²`
+    (triangle inequality + `‖y‖ ≤ (1+e1)‖x‖` + `budget_split`) -/
+theorem round_compose (s : List Nat) (x y z : List Nat → K) (eps e1 : K) (h0 : 0 ≤ e1) (h1 : e1 ≤ eps)
+    (hxy : boxSum s (fun is => (x is - y is) ^ 2) ≤ e1 ^ 2 * boxSum s (fun is => x is ^ 2))
+    (hyz : boxSum s (fun is => (y is - z is) ^ 2) ≤ ((1 + eps) / (1 + e1) - 1) ^ 2 * boxSum s (fun is => y is ^ 2)) :
+    boxSum s (fun is => (x is - z is) ^ 2) ≤ eps ^ 2 * boxSum s (fun is => x is ^ 2) :=
+  TN.tk_round_combine s x y z eps e1 h0 h1 hxy hyz
+
+/-- **combined rounding `Tensor.round(eps)`** (tensor.py:2193-2208), branch `reached < eps`: `x` is the array before `round_tt`, `ms` the
+    state entering the Tucker sweep (the result of `round_tt`, re-orthogonalised), `reached = relative_error(copy, self)` the measured
+    error of the TT stage.  Whatever the TT stage did, if `reached ≤ eps` then after `round_tucker((1+eps)/(1+reached) − 1)` the total
+    error is within `eps`: `‖x − round(x)‖² ≤ eps²·‖x‖²`. -/
+theorem round_within_eps (thr eps reached : K) (x : List Nat → K) (ms : List (TkMode K)) (as : List (TkAns K × Nat))
+    (cur : TkMode K) (rest : List (TkMode K))
+    (hrev : ms.reverse = cur :: rest) (hlo : chainLO (rest.map TkMode.toMode)) (hrl : cur.core.rl = topRank (rest.map TkMode.toMode))
+    (hrr : cur.core.rr = 1) (h0 : 0 ≤ reached) (h1 : reached ≤ eps)
+    (hreach : boxSum (ms.map (·.rows)) (fun is => (x is - dense (ms.map TkMode.toMode) is) ^ 2)
+      ≤ reached ^ 2 * boxSum (ms.map (·.rows)) (fun is => x is ^ 2))
+    (hok : tkOK thr ((1 + eps) / (1 + reached) - 1) ms.length (cur :: rest) as)
+    (hun : tkUncapped thr ((1 + eps) / (1 + reached) - 1) ms.length (cur :: rest) as) :
+    boxSum (ms.map (·.rows)) (fun is =>
+        (x is - dense ((roundTuckerSem thr ((1 + eps) / (1 + reached) - 1) ms as).map TkMode.toMode) is) ^ 2)
+      ≤ eps ^ 2 * boxSum (ms.map (·.rows)) (fun is => x is ^ 2) :=
+  TN.tk_round_combine (ms.map (·.rows)) x (dense (ms.map TkMode.toMode)) _ eps reached h0 h1 hreach
+    (TN.roundTucker_within_eps thr _ ms as cur rest hrev hlo hrl hrr hok hun)
+
+/-- non-vacuity of `round_within_eps`: the example above with `x` = the represented array itself, `reached = 0`, `eps = 0` -/
+example : let ms : List (TkMode K) := [tkExP, tkExCur]
+    (0 : K) ≤ 0 ∧ (0 : K) ≤ 0 ∧
+    boxSum (ms.map (·.rows)) (fun is => (dense (ms.map TkMode.toMode) is - dense (ms.map TkMode.toMode) is) ^ 2)
+      ≤ (0 : K) ^ 2 * boxSum (ms.map (·.rows)) (fun is => dense (ms.map TkMode.toMode) is ^ 2) ∧
+    tkOK (0 : K) ((1 + 0) / (1 + 0) - 1) ms.length [tkExCur, tkExP] [(tkExA, 7), (tkExA, 7)] ∧
+    tkUncapped (0 : K) ((1 + 0) / (1 + 0) - 1) ms.length [tkExCur, tkExP] [(tkExA, 7), (tkExA, 7)] := by
+  intro ms
+  have e : ((1 + 0) / (1 + 0) - 1 : K) = 0 := by norm_num
+  rw [e]
+  refine ⟨le_refl _, le_refl _, ?_, tkExOK, tkExUncapped⟩
+  simp only [sub_self, ne_eq, OfNat.ofNat_ne_zero, not_false_eq_true, zero_pow, zero_mul]
+  rw [boxSum_zero]
+
+/-- the other branch of `round` (`reached ≥ eps`, no `rmax`): nothing more is done, and the TT stage alone is within `eps` by
+    `roundTT_within_eps`; with `rmax` the Tucker sweep runs with budget 0 and (uncapped) changes nothing: `roundTucker_zero_budget`. -/
+theorem round_tt_stage_only (thr eps : K) (ms : List (Mode K)) (as : List (SVDAns K × Nat)) (cur : Mode K) (rest : List (Mode K))
+    (hrev : ms.reverse = cur :: rest) (hlo : chainLO rest) (hrl : cur.rl = topRank rest) (hrr : cur.rr = 1)
+    (hok : ansOK thr (budget2 eps cur rest.length) (cur :: rest) as)
+    (hun : uncapped thr (budget2 eps cur rest.length) (cur :: rest) as) :
+    boxSum (ms.map (·.n)) (fun is => (dense ms is - dense (roundTTsem thr (budget2 eps cur rest.length) ms as) is) ^ 2)
+      ≤ eps ^ 2 * boxSum (ms.map (·.n)) (fun is => dense ms is ^ 2) :=
+  TN.roundTT_within_eps thr eps ms as cur rest hrev hlo hrl hrr hok hun
+
 -- NOT YET PROVED (full statements):
---  * the same bound for `algorithm='eig'` (Gram-matrix path: needs the eigh contract and the 1e-8 substitution) and for
---    `round_tucker` (per-mode truncations of the factors; same Pythagoras argument on the mode unfoldings);
+--  * the same bound for `algorithm='eig'` (Gram-matrix path: needs the eigh contract and the 1e-8 substitution), for `round_tt` and
+--    for `round_tucker`; `round_tucker` with `algorithm='svd'`, `dim='all'`, non-batch is PROVED above (`roundTucker_error_eq`,
+--    `roundTucker_within_eps`, `roundTucker_rank`, `roundTucker_end_to_end`, `round_within_eps`);
+--  * `round_tucker` on a tensor that enters with Tucker factors: the theorems take the state after `orthogonalize(-1)` with the gauge
+--    hypothesis `chainLO` on the modes-with-factors (what `left_orthogonalize` = `factor_orthogonalize` + QR establishes); deriving that
+--    gauge from QR contracts is done for factor-free inputs only (`roundTucker_end_to_end`); `dim=` a proper subset and `batch=True` are
+--    not modelled (with `dim` a subset the code still truncates ALL modes with the budget `eps/sqrt(len(dim))`, so `N·eps²/len(dim) > eps²`);
 --  * the `rmax`-capped clause "error equals the tails" is `roundTT_error_eq` (proved); a bound in terms of the ORIGINAL
 --    tensor's unfolding singular values needs Eckart–Young, absent from Mathlib;
 --  * the absolute-zero special case (`S[0] < 1e-13`) is excluded by `ansOK`; on the real code it is the recorded
